@@ -2,7 +2,7 @@
 import json
 from gen import common, sysattr, api, framing
 
-LEAN_MODULE = ["XcmModel.Props.C04", "XcmModel.Props.Utls", "XcmModel.Props.Timer"]
+LEAN_MODULE = ["XcmModel.Props.C04", "XcmModel.Props.Utls", "XcmModel.Props.Timer", "XcmModel.Props.Dns"]
 THEOREMS = [
     "XcmModel.C04.C04_pending_flush_is_watched", "XcmModel.C04.C04_idle_asks_nothing_extra",
     "XcmModel.C04.C04_condition_passed_down", "XcmModel.C04.C04_flush_progress", "XcmModel.C04.C04_btcp_wake",
@@ -15,6 +15,7 @@ THEOREMS = [
     "XcmModel.C04stack.C04_tcp_stack_registers_output", "XcmModel.C04stack.C04_tcp_stack_wakeup", "XcmModel.C04stack.C04_tls_stack_has_source",
     "XcmModel.C04tp.C04_registrations_refreshed", "XcmModel.C04tp.C04_new_sockets_registered",
     "XcmModel.TimerProps.timer_inv_run", "XcmModel.TimerProps.C04_expired_timer_wakes", "XcmModel.TimerProps.C13_has_expired_implies_readable",
+    "XcmModel.DnsProps.dns_inv_run", "XcmModel.DnsProps.C04_dns_deadline_wakes", "XcmModel.DnsProps.C04_dns_completion_rings",
 ]
 
 
@@ -172,6 +173,10 @@ def run(ctx):
     from gen import timer as _timer
     _timer.run_part(ctx, 40 if ctx.tier == "quick" else 1500, label="c04timer")
     ctx.rule += " unit_timer: the real timer_mgr.c (scripted clock, recorded timerfd_settime, K-timerfd probed on the real kernel) vs the Lean TimerMgr model on every short two-user history and on random histories with stale ids; monitor: the timerfd is always armed at the earliest live deadline, ids are never reused, a cancel removes exactly the timer named."
+    # the asynchronous resolver front end on top of the timer manager
+    from gen import dnsq as _dnsq
+    _dnsq.run_part(ctx, 60 if ctx.tier == "quick" else 2500, label="c04dnsq")
+    ctx.rule += " unit_dnsq: the real xcm_dns_cares.c over the real timer_mgr.c with c-ares scripted (callback kind, descriptor set, timeout per call), clock scripted, timerfd and xpoll calls recorded, vs the Lean DnsQuery model: state, channel registrations, timer ids, timerfd setting, timer list, result and tries after every call, for every (dns.timeout, synchronous answer, later answer, time relative to the deadline) combination and random histories; monitor: deadline honoured and not anticipated, completion sticky and rung, no registration left, failure ladders leave nothing."
 
 def replay(path):
     r = json.load(open(path))
